@@ -50,6 +50,7 @@ type Exec struct {
 	noTypeInv  bool
 	refine     *refineCtx
 	feas       *feasSolver
+	cutSeen    map[string]string
 	curPos     token.Pos
 }
 
@@ -102,7 +103,7 @@ func (x *Exec) srcLabel(pos token.Pos, want string) string {
 type retK func(st *State, res *SV)
 
 func (x *Exec) newFrame(fn *ssa.Function, depth int) *Frame {
-	return &Frame{fn: fn, depth: depth, vals: map[ssa.Value]*SV{}, cells: map[*ssa.Alloc]*Term{}, loopVar: map[*ssa.BasicBlock]*Term{}, visits: map[*ssa.BasicBlock]int{}}
+	return &Frame{fn: fn, depth: depth, vals: map[ssa.Value]*SV{}, cells: map[*ssa.Alloc]*Term{}, loopVar: map[*ssa.BasicBlock]*Term{}, visits: map[*ssa.BasicBlock]int{}, pcAt: map[*ssa.BasicBlock]int{}}
 }
 
 // runFunction executes fn with args; k is invoked on each returning path.
@@ -170,6 +171,16 @@ func (x *Exec) execBlock(fr *Frame, st *State, b *ssa.BasicBlock, prev *ssa.Basi
 		}
 	}
 	x.bindPhis(fr, st, b, prev)
+	if _, seen := fr.pcAt[b]; !seen {
+		fr.pcAt[b] = len(st.pc)
+	}
+	if fr.depth == 0 && !fr.pure {
+		if cut := x.eng.cutFor(fr.fn, b); cut != nil {
+			if !x.atCut(fr, st, b, cut) {
+				return
+			}
+		}
+	}
 	fr.visits[b]++
 	if fr.visits[b] > 64 {
 		unsupportedf("block %d of %s revisited too often (loop without invariant?)", b.Index, fr.fn)
@@ -783,6 +794,19 @@ func (x *Exec) execTypeAssert(fr *Frame, st *State, i *ssa.TypeAssert) {
 	if _, isIface := i.AssertedType.Underlying().(*types.Interface); isIface {
 		ids := x.eng.implementers(w, i.AssertedType)
 		if ids == nil {
+			// closed source interface: the value's dynamic type is one of its implementers
+			if src := x.eng.implementerTypes(i.X.Type()); src != nil {
+				if tgt, ok := i.AssertedType.Underlying().(*types.Interface); ok {
+					ids = []*Term{}
+					for _, t := range src {
+						if types.Implements(t, tgt) {
+							ids = append(ids, w.TypeID(t))
+						}
+					}
+				}
+			}
+		}
+		if ids == nil {
 			x.w.declFun("implements_"+typeKey(i.AssertedType), "(Int) Bool")
 			ok = And(Not(Eq(tag, IntLit(0, SInt))), App("implements_"+typeKey(i.AssertedType), SBool, tag))
 		} else {
@@ -1283,6 +1307,88 @@ func (x *Exec) enterLoopHead(fr *Frame, st *State, b, prev *ssa.BasicBlock, lp *
 		}
 	}
 	// a loop head entered afresh may be visited again by an outer loop iteration: reset counter
+	return true
+}
+
+// atCut implements a join-point cut: the first path to arrive proves the cut invariant, forgets the
+// listed locals and the path-specific part of the path condition, assumes the invariant and goes
+// on; every later path only proves the invariant (its state must agree with the first one on
+// everything that is not forgotten) and ends there.
+func (x *Exec) atCut(fr *Frame, st *State, b *ssa.BasicBlock, cut *Clause) bool {
+	env := x.loopEnv(fr, st)
+	g := x.evalClauseBool(cut, env, st)
+	x.oblige(st, "invariant", cut.Label, cut.Tags, g, b.Instrs[0].Pos())
+	hav := map[string]bool{}
+	for _, h := range cut.Havoc {
+		hav[h] = true
+	}
+	sig := func() string {
+		var sb strings.Builder
+		var names []string
+		byName := map[string]*ssa.Alloc{}
+		for a := range fr.cells {
+			n := fmt.Sprintf("%s@%d", a.Comment, a.Pos())
+			names = append(names, n)
+			byName[n] = a
+		}
+		sort.Strings(names)
+		for _, n := range names {
+			if hav[byName[n].Comment] {
+				continue
+			}
+			sb.WriteString(n + "=" + fr.cells[byName[n]].String() + ";")
+		}
+		var cs []string
+		for c := range st.heap.comps {
+			cs = append(cs, c)
+		}
+		sort.Strings(cs)
+		for _, c := range cs {
+			sb.WriteString(c + "=" + st.heap.comps[c].String() + ";")
+		}
+		sb.WriteString("alloc=" + st.heap.alloc.String())
+		return sb.String()
+	}
+	if x.cutSeen == nil {
+		x.cutSeen = map[string]string{}
+	}
+	// paths are merged only if they share the path condition up to the dominating block
+	prefix := ""
+	if idom := b.Idom(); idom != nil {
+		if n, ok := fr.pcAt[idom]; ok && n <= len(st.pc) {
+			var sb strings.Builder
+			for _, t := range st.pc[:n] {
+				sb.WriteString(t.String())
+				sb.WriteByte(';')
+			}
+			prefix = sb.String()
+		}
+	}
+	key := fmt.Sprintf("%p|%s", b, prefix)
+	if first, ok := x.cutSeen[key]; ok {
+		if first != sig() {
+			unsupportedf("paths reaching cut %s of %s differ in state that the cut does not forget", cut.Label, fr.fn)
+		}
+		return false
+	}
+	x.cutSeen[key] = sig()
+	// forget: listed locals and the path condition accumulated since the dominating block
+	for a := range fr.cells {
+		if hav[a.Comment] {
+			et := a.Type().(*types.Pointer).Elem()
+			fr.cells[a] = x.freshOfType(st, "cut."+a.Comment, et).T
+		}
+	}
+	if idom := b.Idom(); idom != nil {
+		if n, ok := fr.pcAt[idom]; ok && n <= len(st.pc) {
+			st.pc = append([]*Term(nil), st.pc[:n]...)
+			st.known = map[string]bool{}
+			for _, t := range st.pc {
+				st.known[t.String()] = true
+			}
+		}
+	}
+	st.assume(x.evalClauseBool(cut, x.loopEnv(fr, st), st))
 	return true
 }
 
